@@ -19,14 +19,26 @@ def check(ctx, ws, msb):
     ir = ctx.ir('SPIDeviceInterface', 'interface.spi', word_size=ws, msb_first=msb)
     acc = q.raises(ir, 'self.word_accepted')
     ctx.need(len(acc) == 1, 'word_accepted raise site')
-    cmp_lits = [l for l in acc[0].guard if isinstance(l.e, E) and l.e.op == '==' and l.pos and
-                any(x.op == 'const' and x.val == ws for x in l.e.args)]
-    ctx.need(len(cmp_lits) == 1, 'comparison of the bit counter with word_size in the completion guard')
-    cmp_e = cmp_lits[0].e
+    # the completion comparison: `K == counter` or `K == counter + 1` (any constant K)
+    cmp_lits = []
+    for l in acc[0].guard:
+        ce = q.const_eq(l.e) if isinstance(l.e, E) and l.pos else None
+        if ce and isinstance(ce[0], int) and len(l.e.sigs()) == 1:
+            cmp_lits.append((l, ce))
+    ctx.need(len(cmp_lits) == 1, 'comparison of the bit counter with a constant in the completion guard')
+    cmp_e, (K, cexpr) = cmp_lits[0][0].e, cmp_lits[0][1]
     counters = sorted(s for s in cmp_e.sigs())
-    ctx.need(len(counters) == 1, 'bit counter')
     cnt = counters[0]
     si = ir.signals[cnt]
+    # number of sample edges per word implied by the comparison (counter starts at 0 and counts edges)
+    if cexpr == cnt:
+        edges_per_word = K + 1
+    elif cexpr == '1 + ' + cnt:
+        edges_per_word = K
+    else:
+        ctx.need(False, 'shape of the completion comparison: %s' % cmp_e.canon())
+    ctx.ob('C50.word-length', 'SPIDeviceInterface.bit_count.compare[%s]' % tag, edges_per_word == ws, acc[0].loc,
+           'a word is reported after %d sample edges, word_size is %d (%s)' % (edges_per_word, ws, cmp_e.canon()))
     done_guard = q.atoms(acc[0])
     resets = [a for a in ir.drivers(cnt, exact=True) if q.is_zero(a.rhs)]
     incs = [a for a in ir.drivers(cnt, exact=True) if isinstance(a.rhs, E) and a.rhs.op == '+']
